@@ -216,6 +216,16 @@ namespace
     bool er = false;
     Adjacency::Graph gr = make_graph<DT_, IT_>(g, std::max<Index>(s.rows, 1), std::max<Index>(s.cols, 1), s.density, er);
     if(er) ++CNT.empty_rows;
+    if(g.idx(3) == 0)
+    {
+      // the other public way to an empty layout: (rows, columns, number of entries) and filling the arrays by hand, as
+      // SparseMatrixFactory::make_csr does - also with zero entries
+      const Index nnz = gr.get_num_indices();
+      SparseMatrixCSR<DT_, IT_> m(gr.get_num_nodes_domain(), gr.get_num_nodes_image(), nnz);
+      for(Index r = 0; r <= gr.get_num_nodes_domain(); ++r) m.row_ptr()[r] = IT_(gr.get_domain_ptr()[r]);
+      for(Index i = 0; i < nnz; ++i) { m.col_ind()[i] = IT_(gr.get_image_idx()[i]); m.val()[i] = DT_(g.val()); }
+      return m;
+    }
     SparseMatrixCSR<DT_, IT_> m(gr);
     if(m.used_elements() > 0) for(Index i = 0; i < m.used_elements(); ++i) m.val()[i] = DT_(g.val());
     return m;
